@@ -100,6 +100,14 @@ func propC19(e *Env) {
 	var patterns []string
 	if e.Bool("gen") {
 		patterns = []string{filepath.Join(logs, "*.log")}
+		if e.Choose("gen", 3) == 0 {
+			// an entry the glob matches but that cannot be tailed (a device node behind a
+			// symlink), sorting before or between the real logs: the others must still be read
+			name := []string{"000.log", "f0z.log", "zzz.log"}[e.Choose("gen", 3)]
+			if os.Symlink("/dev/null", filepath.Join(logs, name)) == nil {
+				e.Probe("untailable_glob_match")
+			}
+		}
 	} else {
 		patterns = paths
 	}
